@@ -214,6 +214,7 @@ func (ex *Exec) runPath(r *Runner, h *Harness, prefix []decision) {
 	ex.abstracted = false
 	ex.opGors = nil
 	ex.preemptions = 0
+	ex.schedBound = 0
 	ex.muState = map[*Cell]*muSt{}
 	ex.condWaiters = map[*Cell][]*gor{}
 	ex.newScheduler()
